@@ -17,6 +17,8 @@ def run(tier, seed):
     bc, bmeta, nc, nmeta, kc, kmeta, bad = [], [], [], [], [], [], []
     for it in range(n):
         nd = rng.choice([1, 2, 3, 6, 9, 30]); mass = np.array([10 ** rng.uniform(2, 5) for _ in range(nd)])
+        if it % 5 == 4:
+            mass = np.array([rng.randint(100, 100000) for _ in range(nd)]); res.count("integer-typed-masses")       # integer arrays are legal mass vectors
         T = 10 ** rng.uniform(0, 3.5) if rng.random() < 0.7 else 10 ** rng.uniform(-5, 0); kt = boltzmann * T; sd = rng.randrange(2 ** 31); scale = rng.random() < 0.6
         # math.boltzmann_velocities
         twin = np.random.default_rng(sd)
